@@ -10,7 +10,7 @@ from . import gen_lock, lockstep
 from .harness import new_result, fail, bump
 
 PROP = 'C05'
-RUNS = {'quick': 30000, 'thorough': 1500000}
+RUNS = {'quick': 120000, 'thorough': 3000000}
 BUDGET_S = {'quick': 150, 'thorough': 2400}
 CHUNK = 400
 PROPS = {'C05'}
@@ -25,7 +25,84 @@ def _force_tracer_on_128k(scn):
         scn['tracer']['present'] = True
     return scn
 
+B8 = (0x00, 0x01, 0x0F, 0x10, 0x7F, 0x80, 0xFE, 0xFF, 0x99, 0x9A, 0x66, 0x0A, 0xA0)
+B16 = (0x0000, 0x0001, 0x7FFF, 0x8000, 0xFFFF, 0xFFFE, 0x8001, 0x7FFE, 0x0FFF, 0x1000, 0xF000, 0x00FF, 0x0100, 0x7F00, 0x80FF, 0x0800, 0xF7FF)
+BF = (0x00, 0x01, 0xFF, 0x10, 0x11, 0x02, 0x03, 0x12, 0x13, 0x40, 0x80, 0x04, 0xD7, 0xD6)
+
+def gen_regsweep(rng, tier, index):
+    """Boundary-value sweep of one dispatch slot on one engine: many register states drawn independently from
+    small boundary pools (so that e.g. operand = 0x7FFF with carry set is reached within one scenario)."""
+    slot = (index // 4) % gen_lock.N_SLOTS
+    code = gen_lock.slot_bytes(rng, slot)
+    return {'kind': 'regsweep', 'slot': slot, 'code': code, 'engine': REPLICAS[index % 4], 'machine': '48K', 'cseed': rng.getrandbits(48),
+            'cases': 96 if tier == 'quick' else 1500, 'pc': rng.choice((0x8000, 0xC000, 0x6000, 0xFFF0))}
+
+def run_regsweep(scn):
+    import random
+    from .refz80 import F, T, PC
+    res = new_result()
+    rng = random.Random(scn['cseed'])
+    mem = {'machine': '48K', 'ram': {'fill': 0}, 'patches': [[scn['pc'], bytes(scn['code']).hex()]]}
+    base = {'kind': 'wstep', 'machine': '48K', 'mem': mem, 'regs': [0] * 30, 'tracer': {'present': True, 'in_r_c': True, 'ini': True}, 'reads': [0xFF], 'steps': 1, 'ints': [], 'replicas': [scn['engine']]}
+    st = lockstep.materialise_state(base)
+    rp = lockstep.get_replica(scn['engine'], '48K')
+    rp.reset(st)
+    ref = lockstep.get_ref('48K')
+    ref.reset(st)
+    regs = rp.sim.registers
+    n = 0
+    for case in range(scn['cases']):
+        state = [0] * 30
+        for i in list(range(0, 12)) + list(range(16, 24)):
+            state[i] = rng.choice(B8) if rng.random() < 0.8 else rng.randrange(256)
+        state[1] = rng.choice(BF) if rng.random() < 0.8 else rng.randrange(256)
+        for hi in (2, 4, 6, 8, 10):
+            if rng.random() < 0.6:
+                v = rng.choice(B16)
+                state[hi], state[hi + 1] = v >> 8, v & 0xFF
+        state[12] = rng.choice(B16 + (0x9000, 0x9000, 0x9000))
+        state[14] = rng.randrange(256)
+        state[15] = rng.choice((0, 0x7F, 0x80, 0xFF, rng.randrange(256)))
+        state[24] = scn['pc']
+        state[25] = rng.randrange(0, 69888)
+        state[26] = rng.randrange(2)
+        state[27] = rng.randrange(3)
+        for i, v in enumerate(state):
+            regs[i] = v
+        ref.cpu.reg[:] = state
+        ref.n = 0
+        if rp.world is not None:
+            rp.world.n = 0
+            del rp.world.log[:]
+        info = ref.cpu.step()
+        rp.step()             # memory writes, if any, are made identically on both sides (values are judged by W-step)
+        got = rp.regs()
+        rr = ref.cpu.reg
+        n += 1
+        for i in range(29):
+            if i == 13 or i == T:
+                continue
+            a, b = got[i], rr[i]
+            if i == F:
+                a &= info.mask
+                b &= info.mask
+            if i == 27 and info.name == 'IM' and info.slot[1] in (0x4E, 0x6E):
+                continue
+            if a != b:
+                return fail(res, 'C05/%s/sweep/reg.%s' % (scn['engine'], lockstep.REGNAMES[i]), '%s: %s=%d, reference %d after %s%02X %s (boundary sweep case %d)\n pre: %s\n got: %s\n ref: %s' % (
+                    scn['engine'], lockstep.REGNAMES[i], got[i], rr[i], info.slot[0], info.slot[1], info.name, case, lockstep._fmt_regs(state), lockstep._fmt_regs(got), lockstep._fmt_regs(rr)))
+        if not rp.cmio and got[T] - state[T] != info.t:
+            return fail(res, 'C05/%s/sweep/tstates' % scn['engine'], '%s: %d T-states, reference %d for %s%02X %s\n pre: %s' % (scn['engine'], got[T] - state[T], info.t, info.slot[0], info.slot[1], info.name, lockstep._fmt_regs(state)))
+    bump(res, 'events', n)
+    bump(res, 'sweep_cases', n)
+    res['sigs'] = ['sweep|%s%02X|%s' % (info.slot[0], info.slot[1], scn['engine'])]
+    res['digest'] = hashlib.sha256(('%d|%d' % (scn['slot'], n)).encode()).hexdigest()
+    return res
+
 def gen(rng, tier, index):
+    if index % 5 == 4:
+        return gen_regsweep(rng, tier, index // 5)
+    index = index - index // 5
     # one engine per scenario: undefined flag bits are taken over from that engine after every step,
     # so a scenario cannot mix engines (they may legitimately differ there only if C06 is broken)
     rep = [REPLICAS[(index // 8) % 4]]
@@ -36,6 +113,8 @@ def gen(rng, tier, index):
     return _force_tracer_on_128k(scn)
 
 def run(scn):
+    if scn['kind'] == 'regsweep':
+        return run_regsweep(scn)
     res = new_result()
     sigs = set()
     try:
@@ -47,10 +126,15 @@ def run(scn):
     return res
 
 def sample(scn, res):
+    if scn['kind'] == 'regsweep':
+        return scn
     return {'kind': scn['kind'], 'machine': scn['machine'], 'slot': scn.get('slot'), 'steps': scn['steps'], 'ints': scn['ints'],
             'regs': scn['regs'], 'tracer': scn['tracer'], 'patches': scn['mem']['patches'][-1:]}
 
-shrink_candidates = gen_lock.shrink_candidates
+def shrink_candidates(scn):
+    if scn['kind'] == 'regsweep':
+        return []
+    return gen_lock.shrink_candidates(scn)
 
 def describe():
     return {
